@@ -549,8 +549,9 @@ def _table_tm():
     E("tm.__rmul__(arr4x4)", g, lambda a, m: a.__rmul__(m), mat)
     E("tm//arr4x4", g, op.floordiv, mat[:2])
     sc = [("float", lambda v: (T(v, 0), v.scalar())), ("int", lambda v: (T(v, 0), 3)), ("one", lambda v: (T(v, 0), 1.0))]
-    E("tm+scalar", g, op.add, sc)
-    E("tm-scalar", g, op.sub, sc)
+    sc0 = sc[:2] + [("zero", lambda v: (T(v, 0), 0.0))]
+    E("tm+scalar", g, op.add, sc0)
+    E("tm-scalar", g, op.sub, sc0)
     E("tm*scalar", g, op.mul, sc)
     E("scalar*tm", g, lambda a, k: k * a, sc)
     E("tm.__rmatmul__(scalar)", g, lambda a, k: a.__rmatmul__(k), sc[:2])
@@ -574,7 +575,9 @@ def _screw_like_table(g, mk, cls_name):
     two = [("different_frames", lambda v: (mk(v, 0), mk(v, 1, fi=5))),
            ("shared_frame_object", lambda v: (lambda f: (mk(v, 0, frame=f), mk(v, 1, frame=f)))(T(v, 4))),
            ("equal_frames", lambda v: (mk(v, 0, frame=T(v, 4)), mk(v, 1, frame=T(v, 4)))),
-           ("same_object", lambda v: (lambda a: (a, a))(mk(v, 0)))]
+           ("same_object", lambda v: (lambda a: (a, a))(mk(v, 0))),
+           ("zero_second_operand_shared_frame", lambda v: (lambda f: (mk(v, 0, frame=f), mk(v, 0, frame=f) * 0.0))(T(v, 4))),
+           ("zero_first_operand_equal_frame", lambda v: (mk(v, 0, frame=T(v, 4)) * 0.0, mk(v, 1, frame=T(v, 4))))]
     for nm in ("copy", "flatten", "getData", "getPitch", "__sum__", "__abs__", "__str__"):
         E("%s.%s" % (P, nm), g, (lambda nm: lambda a: getattr(a, nm)())(nm), one)
     E(P + ".reshape", g, lambda a: a.reshape((6,)), one)
@@ -594,10 +597,11 @@ def _screw_like_table(g, mk, cls_name):
     E(P + "-arr6", g, op.sub, arr6)
     E("arr6-" + P, g, lambda a, x: x - a, arr6)
     sc = [("float", lambda v: (mk(v, 0), v.scalar())), ("int", lambda v: (mk(v, 0), 3)), ("one", lambda v: (mk(v, 0), 1.0))]
-    E(P + "+scalar", g, op.add, sc)
-    E("scalar+" + P, g, lambda a, k: k + a, sc)
-    E(P + "-scalar", g, op.sub, sc)
-    E("scalar-" + P, g, lambda a, k: k - a, sc)
+    sc0 = sc[:2] + [("zero", lambda v: (mk(v, 0), 0.0))]
+    E(P + "+scalar", g, op.add, sc0)
+    E("scalar+" + P, g, lambda a, k: k + a, sc0)
+    E(P + "-scalar", g, op.sub, sc0)
+    E("scalar-" + P, g, lambda a, k: k - a, sc0)
     E(P + "*scalar", g, op.mul, sc)
     E("scalar*" + P, g, lambda a, k: k * a, sc)
     E(P + "/scalar", g, op.truediv, sc)
@@ -616,7 +620,7 @@ def _screw_like_table(g, mk, cls_name):
     E("arr6x6@" + P, g, lambda a, m: m @ a, [("adjoint_T", lambda v: (mk(v, 0), T(v, 1).adjoint().T)), ("identity", lambda v: (mk(v, 0), np.eye(6))),
                                             ("jacobian_T", lambda v: (mk(v, 0), np.arange(18.0).reshape(3, 6)))])
     for sym, f in (("==", op.eq), ("!=", op.ne), ("<", op.lt), (">", op.gt), ("<=", op.le), (">=", op.ge)):
-        E("%s%s%s" % (P, sym, P), g, f, two[:1] + two[3:] + [("equal_copy", lambda v: (mk(v, 0), mk(v, 0)))])
+        E("%s%s%s" % (P, sym, P), g, f, two[:1] + two[3:4] + [("equal_copy", lambda v: (mk(v, 0), mk(v, 0)))])
     E(P + "<scalar", g, op.lt, sc[:2])
     E(P + ">=arr6x1", g, op.ge, col[:2])
     # documented in place on the receiver: only the frames handed in must stay as they are
@@ -705,8 +709,7 @@ def _table_fsr():
     E("fsr.transformWrenchFrame", g, fsr.transformWrenchFrame,
       [("generic", lambda v: (WR(v, 0), T(v, 4), T(v, 1))),
        ("old_is_own_frame_object", lambda v: (lambda w: (w, w.frame_applied, T(v, 1)))(WR(v, 0))),
-       ("no_change_shortcut", lambda v: (WR(v, 0), T(v, 4), T(v, 4))),
-       ("two_wrenches_one_frame", lambda v: (lambda f: (WR(v, 0, T(v, 3), f), f, T(v, 1), WR(v, 1, T(v, 2), f)))(T(v, 4)))][:3])
+       ("no_change_shortcut", lambda v: (WR(v, 0), T(v, 4), T(v, 4)))])
     E("fsr.transformWrenchFrame(frame shared by two wrenches)", g, lambda w, o, n, w2: fsr.transformWrenchFrame(w, o, n),
       [("shared", lambda v: (lambda f: (WR(v, 0, T(v, 3), f), f, T(v, 1), WR(v, 1, T(v, 2), f)))(T(v, 4)))])
     # twists / conversions on arrays
@@ -1117,19 +1120,20 @@ def _table_defaults():
 
 
 # ------------------------------------------------------------------------------------------------ enumeration
-def palette_ids(e, seed):
-    """[(palette id, variant)]: every palette with the fixed values; the first palette once more with the seed-generic
-    values when that changes an operand (or, for constructors, the arguments of the follow-up calls)."""
+def palette_ids(e, seed, tier="quick"):
+    """[(palette id, variant)]: every palette with the fixed values; the first palette (thorough tier: every palette)
+    once more with the seed-generic values when that changes an operand (or, for constructors, the arguments of the
+    follow-up calls)."""
     out = [(pn, "fixed") for pn, _ in e.pals]
-    pn, fac = e.pals[0]
-    if e.mode == "ctor":
-        out.append((pn + "~seed", "seed"))
-    else:
-        with contextlib.redirect_stdout(io.StringIO()):
-            a = _values(list(fac(Vals(seed, "fixed"))[e.opaque:]))
-            b = _values(list(fac(Vals(seed, "seed"))[e.opaque:]))
-        if a != b:
+    for pn, fac in (e.pals if tier == "thorough" else e.pals[:1]):
+        if e.mode == "ctor":
             out.append((pn + "~seed", "seed"))
+        else:
+            with contextlib.redirect_stdout(io.StringIO()):
+                a = _values(list(fac(Vals(seed, "fixed"))[e.opaque:]))
+                b = _values(list(fac(Vals(seed, "seed"))[e.opaque:]))
+            if a != b:
+                out.append((pn + "~seed", "seed"))
     return out
 
 
@@ -1137,16 +1141,17 @@ def _variant(pid):
     return "seed" if pid.endswith("~seed") else "fixed"
 
 
-def explore(seed, acc, only=None, log=None):
+def explore(seed, acc, only=None, tier="quick"):
     build_table()
     per_group, raised, views, site_skips, returns_operand = {}, {}, {}, {}, 0
+    samples, sampled, sampled_kinds = [], {}, {}
     restored = 0
     for e in TABLE:
         if only and e.name not in only:
             continue
         gstat = per_group.setdefault(e.group, {"entries": 0, "cases": 0, "sites": 0})
         gstat["entries"] += 1
-        for pid, variant in palette_ids(e, seed):
+        for pid, variant in palette_ids(e, seed, tier):
             r = run_history(e, pid, variant, "call", seed)
             nontriv = r["info"].get("operand_arrays", 0) > 0 or e.mode == "fresh"
             acc.case(key="%s|%s|call" % (e.name, pid), nontrivial=nontriv)
@@ -1162,9 +1167,6 @@ def explore(seed, acc, only=None, log=None):
                 views[e.name] = r["info"]["views_of_operand"][:2]
             for clause, obs in r["viols"]:
                 acc.violation(clause, case_of(e, pid, "call", seed), obs)
-            if len(acc.samples) < 4 and nontriv and e.group in ("tm", "Wrench", "fsr", "robots") and pid != e.pals[0][0]:
-                acc.sample({"history": ["build operands: palette %r" % pid, "call: " + e.name, "sites then run one by one: " + ", ".join(r["sites"][:6])],
-                            "operand_arrays": r["info"].get("operand_arrays"), "result_arrays": r["info"].get("result_arrays")}, cap=4)
             for site in r["sites"]:
                 r2 = run_history(e, pid, variant, site, seed)
                 st = r2["info"].get("site_status", "not-reached")
@@ -1178,12 +1180,19 @@ def explore(seed, acc, only=None, log=None):
                     acc.outcome("site_done")
                 for clause, obs in r2["viols"]:
                     acc.violation(clause, case_of(e, pid, site, seed), obs)
+                if st == "done" and nontriv and sampled.get(e.group, 0) < 2 and pid != e.pals[0][0] and site.split(":")[0] not in sampled_kinds.get(e.group, ()):
+                    sampled[e.group] = sampled.get(e.group, 0) + 1
+                    sampled_kinds.setdefault(e.group, set()).add(site.split(":")[0])
+                    samples.append({"entry": e.name, "palette": pid, "site": site,
+                                    "history": ["1 build fresh operands (palette %s): %d ndarrays fingerprinted (+ %d default objects)" % (pid, r2["info"].get("operand_arrays", 0), len(registry().objs)),
+                                                "2 call %s: operands unchanged, %d result arrays share nothing" % (e.name, r2["info"].get("result_arrays", 0)),
+                                                "3 mutate result at %s: operands and defaults still unchanged" % site]})
     registry().restore()
-    return {"per_group": per_group, "raised": raised, "mut_mode_results_viewing_operands": views, "site_not_done": site_skips,
+    return {"samples": samples, "per_group": per_group, "raised": raised, "mut_mode_results_viewing_operands": views, "site_not_done": site_skips,
             "results_that_are_an_operand_itself": returns_operand, "default_arrays_restored_between_histories": restored}
 
 
-RULE = ("complete product  table entries x operand palettes (fixed palettes + the first palette with one seed-generic element) x "
+RULE = ("complete product  table entries x operand palettes (fixed palettes + the first palette - thorough tier: every palette - with one seed-generic element) x "
         "mutation sites discovered on the result (element / slice assignment and changeFrame on every tm/Screw/Wrench, "
         "arr[...]=sentinel on every exposed ndarray; constructors: one follow-up method call); every history is executed from "
         "scratch in one process; distinct = distinct (entry, palette, site) keys; non-trivial = at least one ndarray reachable "
@@ -1197,7 +1206,7 @@ def run(ctx):
     build_table()
     ctx.log("table: %d entries" % len(TABLE))
     with np.errstate(all="ignore"):
-        extra = explore(ctx.seed, acc)
+        extra = explore(ctx.seed, acc, tier=ctx.tier)
     m = lattice.merge([acc.result()])
     m["complete"] = True
     # one representative of every (entry, clause) first, so the written replays cover every distinct finding
@@ -1211,6 +1220,7 @@ def run(ctx):
     lattice.fill(ctx, [("histories", m)], RULE,
                  {"entries": len(TABLE), "groups": {k: v["entries"] for k, v in extra["per_group"].items()},
                   "hidden_default_objects": registry().names})
+    ctx.coverage["samples"] = extra["samples"]
     ctx.coverage["table_entries"] = [e.name for e in TABLE]
     ctx.coverage["per_group"] = extra["per_group"]
     ctx.coverage["raised_outside_this_property"] = {k: {"error": v, "owner": RAISE_OWNED_ELSEWHERE.get(k, "VIOLATION raised")} for k, v in extra["raised"].items()}
